@@ -133,6 +133,40 @@ def nodeIdParse (tok : Bytes) : Option Nat :=
   else if tok[4]? != some 58 && tok[9]? != some 58 && tok[14]? != some 58 then none
   else parseHexN 64 ((tok.drop 0).take 4 ++ (tok.drop 5).take 4 ++ (tok.drop 10).take 4 ++ (tok.drop 15).take 4)
 
+/-! #### IPv4 addresses in dotted decimal -/
+
+/-- `net.IP.String()` of an IPv4 address (four octets) -/
+def printIPv4 : Bytes → Bytes
+  | [a, b, c, d] => itoa a.toNat ++ [46] ++ itoa b.toNat ++ [46] ++ itoa c.toNat ++ [46] ++ itoa d.toNat
+  | _ => []
+
+def isDigitB (b : Byte) : Bool := 48 ≤ b.toNat && b.toNat ≤ 57
+
+/-- one field of `net.ParseIP`'s dotted-decimal reader: at least one digit, no leading zero in front of another digit,
+    at most 255; the value and what follows -/
+def ipv4Field (s : Bytes) : Option (Nat × Bytes) :=
+  let ds := s.takeWhile isDigitB
+  if ds.isEmpty then none
+  else if ds.length > 1 ∧ ds.head? = some 48 then none
+  else
+    let v := ds.foldl (fun a b => a * 10 + (b.toNat - 48)) 0
+    if v > 255 then none else some (v, s.drop ds.length)
+
+/-- `net.ParseIP` on a token without a colon: four fields with dots between them and nothing behind -/
+def parseIPv4 (s : Bytes) : Option Bytes :=
+  match ipv4Field s with
+  | some (a, 46 :: s1) =>
+    match ipv4Field s1 with
+    | some (b, 46 :: s2) =>
+      match ipv4Field s2 with
+      | some (c, 46 :: s3) =>
+        match ipv4Field s3 with
+        | some (d, []) => some [UInt8.ofNat a, UInt8.ofNat b, UInt8.ofNat c, UInt8.ofNat d]
+        | _ => none
+      | _ => none
+    | _ => none
+  | _ => none
+
 /-- one leaf of a `String()` expression -/
 def printStep : TStep → List TVal → Option (Bytes × List TVal)
   | .uint _, .n v :: vs => some (itoa v, vs)
@@ -141,6 +175,7 @@ def printStep : TStep → List TVal → Option (Bytes × List TVal)
   | .txt, .ss strs :: vs => some (sprintTxt strs, vs)
   | .txtPair, .s a :: .s b :: vs => some (sprintTxt [a, b], vs)
   | .txtFirst, .s a :: vs => some (sprintTxt [a], vs)
+  | .ipv4, .s a :: vs => if a.length = 4 then some (printIPv4 a, vs) else none
   | .salt, .s t :: vs => some (if t.isEmpty then [45] else upperAscii t, vs)
   | .hexGroups d g sep up, .n v :: vs => some (printHexGroups d g sep up v, vs)
   | .octet, .s a :: vs => some (sprintTxtOctet a, vs)
@@ -269,6 +304,12 @@ def parsePlan (origin : Bytes) : List TStep → List Tok → List TVal → Optio
   | .txtPair :: _, ts, acc => (TxtParse.endingToTxtSlice ts).map (fun ss => acc ++ [.s (pairOfChunks ss).1, .s (pairOfChunks ss).2])
   | .txtFirst :: _, ts, acc => (TxtParse.endingToTxtSlice ts).map (fun ss => acc ++ [.s (ss.headD [])])
   | .octet :: _, ts, acc => (endingToOctet ts).map (fun s => acc ++ [.s s])
+  | .ipv4 :: rest, ts, acc =>
+    let l := headTok ts
+    if l.err ∨ l.token.contains 58 then none
+    else match parseIPv4 l.token with
+      | some a => parsePlan origin rest ts.tail (acc ++ [.s a])
+      | none => none
   | .salt :: rest, ts, acc =>
     let l := headTok ts
     if l.err then none
